@@ -172,3 +172,48 @@ package state
 //@   nosafety
 //@   atcall append assert [previous-refund-journalled-before-the-change] calls(append) == 0 && typeIs(arg_entry, refundChange) && unbox(arg_entry, refundChange).prev == self.refund && self.refund == old(self.refund)
 //@   ensures  calls(append) == 1 && self.refund == old(self.refund) - gas
+
+//@ ghost gPrevObj Ref
+
+//@ func (*StateDB).Suicide
+//@   props C11
+//@   requires self != nil && self.journal != nil
+//@   nosafety
+//@   atcall getStateObject set gObj = result
+//@   atcall Set set gCopy = result
+//@   atcall append assert [previous-flag-and-balance-journalled-before-the-self-destruct] calls(markSuicided) == 0 && calls(append) == 0 && typeIs(arg_entry, suicideChange) \
+//@              && unbox(arg_entry, suicideChange).prev == as(gObj, *stateObject).suicided && unbox(arg_entry, suicideChange).prevbalance == gCopy && calls(Set) == 1
+//@   atcall markSuicided assert [marked-after-journalling] calls(append) == 1 && arg_self == gObj
+//@   onwrite Account.Balance assert [balance-zeroed-after-journalling] calls(append) == 1
+//@   ensures  [absent-account-changes-nothing] !result ==> calls(append) == 0 && calls(markSuicided) == 0
+
+//@ func (*StateDB).createObject
+//@   props C11
+//@   requires self != nil && self.journal != nil
+//@   nosafety
+//@   atcall getStateObject set gPrevObj = result
+//@   atcall append assert [creation-or-reset-journalled-before-the-object-is-installed] calls(setStateObject) == 0 && calls(append) == 0 \
+//@              && ((gPrevObj == nil && typeIs(arg_entry, createObjectChange)) || (gPrevObj != nil && typeIs(arg_entry, resetObjectChange) && unbox(arg_entry, resetObjectChange).prev == gPrevObj))
+//@   atcall setStateObject assert [installed-after-journalling] calls(append) == 1
+//@   ensures  calls(append) == 1 && calls(setStateObject) == 1 && prev == gPrevObj
+
+//@ func (resetObjectChange).revert
+//@   props C11
+//@   requires s != nil
+//@   nosafety
+//@   atcall setStateObject assert [previous-object-reinstalled] arg_object == ch.prev
+//@   ensures  calls(setStateObject) == 1
+
+//@ func (*StateDB).AddLog
+//@   props C11
+//@   requires self != nil && self.journal != nil && log != nil
+//@   nosafety
+//@   atcall append assert [log-journalled-under-the-current-transaction-before-it-is-added] calls(append) == 0 && typeIs(arg_entry, addLogChange) && unbox(arg_entry, addLogChange).txhash == self.thash && self.logSize == old(self.logSize)
+//@   ensures  [log-counter-advanced-once] calls(append) == 1 && self.logSize == (old(self.logSize) + 1) % 18446744073709551616
+
+//@ func (addLogChange).revert
+//@   props C11
+//@   requires s != nil
+//@   nosafety
+//@   assigns  s.logs[*], s.logSize
+//@   ensures  [log-counter-restored] s.logSize == (old(s.logSize) + 18446744073709551615) % 18446744073709551616
